@@ -180,7 +180,9 @@ Definition spec_join (sv : spec_rules) (a : auth_input) (c : create_info) (m : m
     | JrOther => dep10_invited_or_joined_may_join_under_any_rule && invited_or_joined  (* (g) *)
     end.
 
-(* rule 5, membership invite carrying third_party_invite *)
+(* rule 5, membership invite carrying third_party_invite. The rule belongs to membership invite
+   only: on join / leave / ban / knock events a third_party_invite block is just content and plays
+   no part below (Auth/TpiBlock.v: block_ignored). *)
 Definition spec_third_party_invite (a : auth_input) (t : tpi_info) (target : bytes) (old : mship) : bool :=
   negb (mship_eqb old MsBan)
   && bytes_eqb target (t_mxid t)
